@@ -26,7 +26,7 @@ VARIANTS = {
 # libc / kernel entry points that cjet's objects must not reach directly.
 REDIRECT = """socket setsockopt fcntl bind listen accept getsockname close read writev write unlink
 epoll_create epoll_create1 epoll_ctl epoll_wait timerfd_create timerfd_settime signal syslog open lseek mmap munmap
-realpath ftruncate daemon malloc calloc realloc free fsync fdatasync rename shutdown send recv""".split()
+realpath ftruncate daemon malloc calloc realloc free fsync fdatasync rename shutdown send recv fstat""".split()
 
 BASE_FLAGS = ["-g", "-O1", "-fno-omit-frame-pointer", "-fsanitize=address,undefined",
               "-fno-sanitize-recover=undefined", "-DCJET_VERIF", "-fno-common", "-U_FORTIFY_SOURCE",
